@@ -1086,13 +1086,14 @@ class SubElementProperty(_ElementBase):
 
     def get_py_value_from_node(self, instance: Any, node: xml_utils.LxmlElement) -> Any:  # noqa: ARG002
         """Read value from node."""
-        value = self._default_py_value
         try:
             sub_node = self._get_element_by_child_name(node, self._sub_element_name, create_missing_nodes=False)
             value_class = self.value_class.value_class_from_node(sub_node)
             value = value_class.from_node(sub_node)
         except ElementNotFoundError:
-            pass
+            # element absent: a copy of the default - the class-level default object itself must never become
+            # a member of an instance (every instance parsed that way and every later cls() would share it)
+            value = copy.deepcopy(self._default_py_value)
         return value
 
     def update_xml_value(self, instance: Any, node: xml_utils.LxmlElement):
@@ -1144,7 +1145,6 @@ class ContainerProperty(_ElementBase):
 
     def get_py_value_from_node(self, instance: Any, node: xml_utils.LxmlElement) -> Any:  # noqa: ARG002
         """Read value from node."""
-        value = self._default_py_value
         try:
             sub_node = self._get_element_by_child_name(node, self._sub_element_name, create_missing_nodes=False)
             node_type_str = sub_node.get(QN_TYPE)
@@ -1155,7 +1155,7 @@ class ContainerProperty(_ElementBase):
                 value_class = self.value_class
             value = value_class.from_node(sub_node)
         except ElementNotFoundError:
-            pass
+            value = copy.deepcopy(self._default_py_value)
         return value
 
     def update_xml_value(self, instance: Any, node: xml_utils.LxmlElement):
@@ -1463,7 +1463,7 @@ class NodeTextListProperty(_ElementListProperty):
             if sub_node.text is not None:
                 return sub_node.text.split()
         except ElementNotFoundError:
-            return self._default_py_value
+            return copy.deepcopy(self._default_py_value)
         else:
             return []
 
@@ -1506,7 +1506,7 @@ class NodeTextQNameListProperty(_ElementListProperty):
         try:
             sub_node = self._get_element_by_child_name(node, self._sub_element_name, create_missing_nodes=False)
         except ElementNotFoundError:
-            return self._default_py_value or []
+            return copy.deepcopy(self._default_py_value) or []
         if sub_node is None:
             return None
         if sub_node.text is not None:
